@@ -189,6 +189,30 @@ def big_cases(ctx):
     return out
 
 
+def small_unit_cases(ctx, count):
+    """very small magnitudes: the implementation runs on 2^-e * x (e = `ushift` in {10, 14, 17}: data of the order
+    1e-3 .. 1e-5, exact in binary floating point) and is observed in units of 2^-e; the specification sees the integer
+    matrix x.  Shapes: uniformly small columns, and one small column (entries -1..1) next to much larger ones."""
+    r = ctx.rng
+    out = []
+    tries = 0
+    while len(out) < count and tries < 200 * count:
+        tries += 1
+        p = r.choice([2, 3, 3, 4])
+        n = r.randint(p + 3, 18)
+        if len(out) % 2 == 0:
+            x = [[r.randint(-3, 3) for _ in range(p)] for _ in range(n)]
+        else:
+            small = r.randrange(p)
+            x = [[r.randint(-1, 1) if j == small else 20 * r.randint(-2, 2) for j in range(p)] for _ in range(n)]
+        if not in_domain(x):
+            continue
+        q = [[r.randint(-4, 4) for _ in range(p)], [r.randint(-5, 5) for _ in range(p)]]
+        out.append({"kind": "pca", "inp": {"n": n, "p": p, "x": x, "q": q, "form": r.choice(["owned", "view", "fortran"]),
+                                           "ushift": [10, 14, 17][len(out) % 3]}})
+    return out
+
+
 def nontrivial(case):
     return case["inp"]["p"] >= 2
 
@@ -202,10 +226,13 @@ def run(ctx):
         cases += random_cases(ctx, 800)
     big = big_cases(ctx)
     cases += big
+    tiny = small_unit_cases(ctx, 36 if ctx.quick else 300)
+    cases += tiny
     vlib.number(cases)
     ctx.cases = len(cases)
     ctx.nontrivial = len({repr(c["inp"]["x"]) for c in cases if nontrivial(c)})
     ctx.extra["large_cases"] = len(big)
+    ctx.extra["small_unit_cases"] = len(tiny)
     ctx.extra["large_fits_by_regime"] = {
         "k<=p/5": sum(1 for c in big for k in c["inp"]["ks"] if 5 * k <= c["inp"]["p"]),
         "p/5<k<=p/3": sum(1 for c in big for k in c["inp"]["ks"] if 5 * k > c["inp"]["p"] and 3 * k <= c["inp"]["p"]),
